@@ -1,6 +1,6 @@
-"""C03 — critic losses implement their documented targets per sample (NARROW SLICE:
-terminated => successor irrelevant; batch-order invariance), by fault injection inside
-simulated training (twin runs)."""
+"""C03 — critic losses implement their documented targets per sample, decided inside simulated training:
+(1) fault injection with twin runs (terminated => successor irrelevant; batch-order invariance);
+(2) refinement: every update of a simulated training history against a float64 reference model (rlsim/refine.py)."""
 import json
 
 import numpy as np
@@ -10,22 +10,35 @@ from rlsim.core import Result
 
 PROPERTY = "C03"
 LEVEL = "fault_enumeration"
-ENGINE = "TrainSim twin runs with fault-injecting replay buffers"
+ENGINE = "TrainSim twin runs with fault-injecting replay buffers + per-update refinement against a float64 reference model"
 RULE = ("Seeded plans: critic family (DQN, Nature-DQN, DDQN, PER-DDQN, DDPG, TD3, TD3+LAP, SAC) x scripted environment with many terminated "
         "episodes x fault in {corrupt_terminated: overwrite next_observation of every stored terminated transition with another finite "
         "stored observation before every sample; permute: reorder the rows of one returned batch; corrupt_nonterminated: control fault}. "
         "Each plan is executed clean and faulted in the same process. corrupt_terminated: the complete trace (every logged statistic, "
         "every action the env received, final hashes of all modules and optimisers) must be bit-identical; permute: logged loss and q mean "
         "of that update agree to 1e-5*(1+|x|); the control fault must change the trace (reach probe). "
+        "Value plans (DQN, Nature-DQN, DDQN, PER-DDQN, DDPG, TD3, TD3+LAP, TD7, MR.Q): one simulated training run; at every sample_batch the "
+        "returned batch is copied and all networks are cloned; the statistics the routine logs for that update (q loss / weighted loss, q mean, "
+        "mean |TD|, TD7 embedding loss and tracked value range, per-sample |TD| handed to lap_priority) must equal the reference "
+        "y = r + (1-terminated)*gamma*bootstrap (max / double-Q selection / clipped double-Q minimum / TD7 value clipping with the reported range / "
+        "MR.Q n-step return with residual discount and reward scaling) evaluated with float64 forward passes through the clones; tolerance "
+        "2e-5*(1+|x|) + 16*|float32 reference - float64 reference| + float32 rounding of the forward-pass magnitude. "
         "Distinct = distinct (routine, configuration, fault kind, fired?).")
-REAL = ["train_* routines", "all critic losses (dqn, nature_dqn, ddqn, ddqn_per, ddpg, td3, td3_lap, sac)", "replay buffers (dynamic subclass adds the fault)"]
+REAL = ["train_* routines", "all critic losses (dqn, nature_dqn, ddqn, ddqn_per, ddpg, td3, td3_lap, sac, td7_update_critic, mrq_loss, SALE loss)", "replay buffers (dynamic subclass adds the fault / records samples)",
+        "networks (clones of the live modules give the reference its forward passes)"]
 STUB = ["environment (SimEnv)"]
-ASSUMPTIONS = ["NARROW SLICE: equality of loss values with a float64 reference, bootstrap choice, zero gradient into targets and batch size 1 are pure per-call clauses and are NOT decided",
+ASSUMPTIONS = ["value equality is decided on the states simulated histories reach (batches the seeded sampler returns, networks after earlier updates and target synchronisations), not for all inputs; "
+               "SAC (bootstrap draws an action with a key that is not observable), the MR.Q encoder loss value, gradients w.r.t. online parameters and batch size 1 are NOT decided",
                "replacement successors are finite stored observations, so 0*x stays 0",
-               "TD7 and MR.Q representation losses legitimately read the successor and are excluded here"]
-TIERS = {"quick": {"runs": 48}, "thorough": {"runs": 1200}}
-REQUIRED = ["terminated_successor_irrelevant", "corrupted_rows_sampled", "control_fault_changes_trace", "batch_order_irrelevant"]
-REQUIRED_QUICK = REQUIRED
+               "TD7 and MR.Q representation losses legitimately read the successor and are excluded from the corrupt_terminated fault",
+               "smoothed target actions (TD3 family with noise_clip > 0) are read from a probe on the supplied target critic; an update whose target action cannot be attributed is counted unchecked",
+               "MR.Q reward scales are taken as the routine reports them ('reward scale' statistic); TD7 clipping range as reported for the same update, its running-range law is checked separately"]
+TIERS = {"quick": {"runs": 72}, "thorough": {"runs": 1800}}
+REQUIRED = ["terminated_successor_irrelevant", "corrupted_rows_sampled", "control_fault_changes_trace", "batch_order_irrelevant",
+            "update_matches_reference:q_loss", "update_matches_reference:q_mean", "td_errors_match_reference", "update_on_mixed_terminated_batch",
+            "update_with_active_value_clipping", "update_with_reward_scale_not_one", "update_matches_reference:embedding_loss", "update_matches_reference:weighted_loss"]
+REQUIRED_QUICK = ["terminated_successor_irrelevant", "corrupted_rows_sampled", "control_fault_changes_trace", "batch_order_irrelevant",
+                  "update_matches_reference:q_loss", "update_matches_reference:q_mean", "td_errors_match_reference", "update_on_mixed_terminated_batch"]
 CHUNK = 24  # TrainSim plans per fresh worker process
 SHRINK_LISTS = [["env", "script"]]
 SHRINK_INTS = []
@@ -33,10 +46,15 @@ ADAPTERS = ["dqn", "nature_dqn", "ddqn", "ddqn_per", "ddpg", "td3", "td3_lap", "
 UNIFORM = ["dqn", "nature_dqn", "ddqn", "ddpg", "td3"]  # SAC draws positional noise inside the loss: order invariance holds only in distribution
 
 
+VALUE = ["dqn", "nature_dqn", "ddqn", "ddqn_per", "ddpg", "td3", "td3_lap", "td7", "mrq", "td7", "mrq"]
+
+
 def make_plan(rng, tier, index):
-    kind = ["corrupt_terminated", "corrupt_terminated", "permute", "corrupt_nonterminated"][index % 4]
-    names = UNIFORM if kind == "permute" else ADAPTERS
-    name = names[(index // 4) % len(names)]
+    kind = ["corrupt_terminated", "value", "permute", "corrupt_nonterminated", "value", "corrupt_terminated"][index % 6]
+    names = UNIFORM if kind == "permute" else VALUE if kind == "value" else ADAPTERS
+    name = names[(index // 6) % len(names)]
+    if kind == "value":
+        return value_plan(rng, name)
     plan = trainplan.base_plan(rng, PROPERTY, [], name, T=rng.choice([24, 32]))
     plan["env"]["script"] = trainplan.make_script(rng, 40, style=rng.choice(["short", "mixed", "one_step"]))
     for e in plan["env"]["script"]:
@@ -53,6 +71,38 @@ def make_plan(rng, tier, index):
     plan["logger"] = True
     plan["monitor"] = "final"
     plan["fault"] = {"kind": kind, "shift": rng.choice([2, 3, 5]), "from_call": rng.choice([1, 1, 2, 4]), "at_call": rng.choice([1, 2, 3, 5]), "perm_seed": rng.randrange(1000)}
+    return plan
+
+
+def value_plan(rng, name):
+    """One simulated training run whose every update is compared with the float64 reference (rlsim/refine.py)."""
+    plan = trainplan.base_plan(rng, PROPERTY, ["C03.value"], name, T=rng.choice([24, 32, 40]))
+    plan["env"]["script"] = trainplan.make_script(rng, 50, style=rng.choice(["short", "mixed", "one_step", "long"]))
+    ends = rng.choice(["term", "term", "mixed", "trunc"])
+    for e in plan["env"]["script"]:
+        e["end"] = "term" if ends == "term" else "trunc" if ends == "trunc" else rng.choice(["term", "trunc", "both"])
+    c = plan["cfg"]
+    if name != "mrq":
+        c["learning_starts"] = rng.choice([0, 3, 5, 6])
+    c["buffer_size"] = rng.choice([16, 64, 1000]) if name != "mrq" else rng.choice([32, 64, 1000])
+    c["batch_size"] = rng.choice([2, 3, 4, 6])
+    if name in ("td7", "mrq"):
+        c["target_delay"] = rng.choice([1, 2, 3, 5])
+        c["target_policy_noise"] = rng.choice([0.0, 0.2])
+        c["exploration_noise"] = rng.choice([0.0, 0.1, 0.2])
+    if name == "td7":
+        c["steps_before_checkpointing"] = rng.choice([0, 3, 10_000])
+        c["lap_min_priority"] = rng.choice([1.0, 1.0, 0.25])
+    c["gamma"] = rng.choice([0.0, 0.5, 0.9, 0.99, 1.0])
+    c["init_scale"] = 1.0
+    if "noise_clip" in c:
+        c["noise_clip"] = rng.choice([0.0, 0.0, 0.3, 0.5]) if name != "mrq" else 0.0
+    if name == "td3_lap":
+        c["lap_min_priority"] = rng.choice([1.0, 1.0, 0.25, 2.0])
+    plan["logger"] = True
+    plan["supply_targets"] = rng.random() < 0.85 or bool(c.get("noise_clip"))  # smoothed target actions are read from a probe on the supplied target critic
+    plan["monitor"] = False
+    plan["kind"] = "value"
     return plan
 
 
@@ -76,6 +126,11 @@ def trace(run):
 
 
 def execute(plan):
+    if plan.get("kind") == "value":
+        run = trainsim.TrainRun(plan)
+        res = run.run()
+        res.signature = f"{plan['adapter']}|value|{json.dumps(plan['cfg'], sort_keys=True)}|{sorted(res.probes)}"
+        return res
     res = Result()
     site = "train_" + plan["adapter"]
     clean = json.loads(json.dumps(plan))
